@@ -94,9 +94,24 @@ class World:
         file, group, mode = self._target(op)
         bt, rows, sym = op["bt"], op["rows"], op["symmetric"]
         chunks = gen.split_at(rows, op["cuts"])
-        px = iter([pixel_frame(c) for c in chunks]) if op["cuts"] else pixel_frame(rows)
+        kw = {}
+        if op.get("unsorted"):
+            # chunks internally out of order (only inside rows, or completely) + ensure_sorted=True
+            rng = np.random.RandomState(op["unsorted_seed"])
+            shuffled = []
+            for c in chunks:
+                if op["unsorted"] == "full":
+                    c = [c[t] for t in rng.permutation(len(c)).tolist()]
+                else:
+                    keys = rng.rand(len(c)).tolist()
+                    c = [r for _, r in sorted(zip([(r[0], k) for r, k in zip(c, keys)], c), key=lambda t: t[0])]
+                shuffled.append(c)
+            px = iter([pixel_frame(c) for c in shuffled])
+            kw["ensure_sorted"] = True
+        else:
+            px = iter([pixel_frame(c) for c in chunks]) if op["cuts"] else pixel_frame(rows)
         call("create_cooler", cooler.create_cooler, file + "::" + group, gen.bins_df(bt), px, ordered=True,
-             symmetric_upper=sym, mode=mode, h5opts={"compression": None})
+             symmetric_upper=sym, mode=mode, h5opts={"compression": None}, **kw)
         self._register(file, group, bt, rows, sym, "create-chunks" if sum(1 for c in chunks if c) >= 2 else "create")
 
     def op_create_unordered(self, op):
@@ -284,11 +299,13 @@ def make_machine(ctx: Ctx):
                        ["history", f"steps={len(w.history)}", *sorted({"op-" + o["op"] for o in w.history})])
             w.close()
 
-        @rule(a=_small_cooler_args(), file=st.integers(0, 2), group=st.integers(0, 2), ncuts=st.integers(0, 4), data=st.data())
-        def create(self, a, file, group, ncuts, data):
+        @rule(a=_small_cooler_args(), file=st.integers(0, 2), group=st.integers(0, 2), ncuts=st.integers(0, 4),
+              unsorted=st.sampled_from([None, None, "within-rows", "full"]), useed=st.integers(0, 999), data=st.data())
+        def create(self, a, file, group, ncuts, unsorted, useed, data):
             bt, sym, rows = a
             cuts = sorted(data.draw(st.lists(st.integers(0, len(rows)), min_size=ncuts, max_size=ncuts)))
-            self.w.apply({"op": "create", "bt": bt, "rows": rows, "symmetric": sym, "file": file, "group": group, "cuts": cuts})
+            self.w.apply({"op": "create", "bt": bt, "rows": rows, "symmetric": sym, "file": file, "group": group, "cuts": cuts,
+                          "unsorted": unsorted, "unsorted_seed": useed})
 
         @rule(a=_small_cooler_args(), file=st.integers(0, 2), group=st.integers(0, 2), k=st.integers(1, 4),
               mergebuf=st.sampled_from([1, 3, 10**6]), max_merge=st.sampled_from([1, 2, 200]), data=st.data())
@@ -393,7 +410,8 @@ def index_cases(draw):
     sym = draw(st.booleans())
     rows = draw(gen.pixels(n, sym, count=st.integers(1, 9)))
     return {"part": "index", "bt": bt, "symmetric": sym, "rows": rows, "block": draw(st.sampled_from([1, 2, 3, 4, 5, 6, 7])),
-            "cuts": draw(gen.cuts(len(rows), 4))}
+            "cuts": draw(gen.cuts(len(rows), 4)), "unsorted": draw(st.sampled_from([None, None, "within-rows"])),
+            "useed": draw(st.integers(0, 999))}
 
 
 def check_index(case, ctx: Ctx):
@@ -411,8 +429,14 @@ def check_index(case, ctx: Ctx):
     cc.rlencode = lambda array, chunksize=None: real(array, block)
     try:
         chunks = gen.split_at(case["rows"], case["cuts"])
+        kw = {}
+        if case.get("unsorted"):
+            rng = np.random.RandomState(case["useed"])
+            chunks = [[r for _, r in sorted(zip([(r[0], k) for r, k in zip(c, rng.rand(len(c)).tolist())], c), key=lambda t: t[0])]
+                      for c in chunks]
+            kw["ensure_sorted"] = True
         call("create_cooler (small index blocks)", cooler.create_cooler, path, gen.bins_df(case["bt"]),
-             iter([pixel_frame(c) for c in chunks]), ordered=True, symmetric_upper=case["symmetric"], h5opts={"compression": None})
+             iter([pixel_frame(c) for c in chunks]), ordered=True, symmetric_upper=case["symmetric"], h5opts={"compression": None}, **kw)
     finally:
         cc.rlencode = orig
     try:
